@@ -544,7 +544,7 @@ func c29() {
 	ctx := context.Background()
 	run.Rule = "3 base blocks; every wire-visible leaf (reflect walk) x its kind's alphabet + structural tamperings, x {plain, consistent}; every case evaluated on the block a node receives (JSON -> FromJSON -> ComputeHash/Validate), plus hash re-computed-by-attacker and re-signed-by-generator variants for the Validate clauses. distinct = (base, normalised path, variant, result class)"
 	run.Bounds["bases"] = []string{"txns(3 txns)", "magic(2 txns + magic block)", "empty", "magic-nohash(2 txns + magic block whose Hash is empty on the wire)", "baremagic-nohash(1 txn + NewMagicBlock() with empty pools, Hash empty)"}
-	run.Bounds["variants"] = []string{"plain", "consistent", "rehash", "resigned(duplicates)"}
+	run.Bounds["variants"] = []string{"plain", "consistent", "rehash", "resigned(duplicates)", "respell-{upper,mixed,miracl} of every hex-valued string leaf, plain and consistent"}
 
 	notHashed := map[string]bool{}
 	classified := map[string]string{}
@@ -599,12 +599,15 @@ func c29() {
 				return
 			}
 			verr := recv.Validate(ctx)
+			respell := strings.Contains(variant, "respell")
+			// a block whose Hash field is not byte for byte its computed hash is rejected
+			if verr == nil && recv.Hash != h1 {
+				run.Outcome(tag + "/hash-field-differs-from-computed-hash/accepted")
+				run.Violation("C29:Validate:hash-mismatch-accepted", fmt.Sprintf("%s: %s (%s): block hash field %q != ComputeHash %q but Validate accepts", name, path, variant, recv.Hash, h1), rep)
+				return
+			}
 			if h1 != h0 {
 				run.Outcome(tag + "/hash-changed/" + errClass(verr))
-				// the carried hash is the original one: must be rejected
-				if verr == nil && recv.Hash != h1 {
-					run.Violation("C29:Validate:hash-mismatch-accepted", fmt.Sprintf("%s: %s: block hash field %s != ComputeHash %s but Validate accepts", name, path, recv.Hash[:12], h1[:12]), rep)
-				}
 				// attacker recomputes the hash but cannot re-sign
 				recv.Hash = h1
 				rerr := recv.Validate(ctx)
@@ -623,7 +626,7 @@ func c29() {
 			}
 			classified[norm] = class
 			// plain variant on a nested item: the item's own hash check (run by every verifier)
-			if variant == "plain" && strings.HasPrefix(path, "Txns") {
+			if strings.HasPrefix(variant, "plain") && strings.HasPrefix(path, "Txns") {
 				for _, t := range recv.Txns {
 					if terr := t.ValidateWrtTimeForBlock(ctx, recv.CreationDate, true); terr != nil {
 						run.Outcome(tag + "/hash-unchanged/caught-by-nested-" + errClass(terr))
@@ -632,7 +635,12 @@ func c29() {
 				}
 			}
 			run.Outcome(tag + "/hash-unchanged/" + errClass(verr))
-			if variant == "plain" && !emptyMBHash && recv.MagicBlock != nil && strings.HasPrefix(path, "MagicBlock") && path != "MagicBlock:add" {
+			if respell && (strings.HasSuffix(norm, "PublicKey") || strings.HasSuffix(norm, "Signature")) {
+				// the same key bytes / the same signature element written differently: meaning unchanged
+				run.Outcome(tag + "/hash-unchanged/same-bytes-respelled/" + errClass(verr))
+				return
+			}
+			if strings.HasPrefix(variant, "plain") && !emptyMBHash && recv.MagicBlock != nil && strings.HasPrefix(path, "MagicBlock") && path != "MagicBlock:add" {
 				// content of the magic block altered, carried MagicBlock.Hash string unchanged
 				run.Violation("C29:getHashData:magic-block-content-under-carried-hash",
 					fmt.Sprintf("%s: %s altered; ComputeHash hashes the carried MagicBlock.Hash string, which nothing compares with MagicBlock.GetHash(): block hash unchanged, Validate: %v", name, path, verr), rep)
@@ -676,6 +684,34 @@ func c29() {
 						tb = nb
 					}
 					eval(lf.path, lf.norm, class, variant, tb)
+				}
+			}
+		}
+		// respellings of every hex-valued string leaf: upper / mixed case, MIRACL forms of bls signatures and keys
+		for li, lf := range leaves {
+			if lf.v.Kind() != reflect.String {
+				continue
+			}
+			parts := strings.Split(lf.norm, ".")
+			fname := strings.TrimSuffix(parts[len(parts)-1], "[]")
+			class := c29Class(lf.norm)
+			for _, rs := range respellings(fname, lf.v.String(), blsScheme) {
+				for _, variant := range []string{"plain", "consistent"} {
+					tb, _ := decodeBlock(wire0)
+					var ls []leaf
+					walkLeaves(reflect.ValueOf(tb), "", &ls)
+					if len(ls) != len(leaves) || ls[li].path != lf.path {
+						ev.Fatal("leaf walk not stable at %s", lf.path)
+					}
+					ls[li].v.SetString(rs.val)
+					if variant == "consistent" {
+						nb, derr := decodeBlock(encodeBlock(tb))
+						if derr != nil || !rederive(nb, lf.path) {
+							continue
+						}
+						tb = nb
+					}
+					eval(lf.path, lf.norm, class, variant+"/respell-"+rs.how, tb)
 				}
 			}
 		}
